@@ -31,14 +31,14 @@ type Node struct {
 	List []*Node
 }
 
-func nAbsent() *Node           { return &Node{Kind: kAbsent} }
-func nNil() *Node              { return &Node{Kind: kNil} }
-func nInt(i int64) *Node       { return &Node{Kind: kInt, I: i} }
-func nBool(b bool) *Node       { return &Node{Kind: kBool, B: b} }
-func nUint(u uint64) *Node     { return &Node{Kind: kUint, U: u} }
-func nStr(s string) *Node      { return &Node{Kind: kStr, S: s} }
-func nList(l ...*Node) *Node   { return &Node{Kind: kCfg, List: l} }
-func nDict() *Node             { return &Node{Kind: kCfg, Dict: map[string]*Node{}} }
+func nAbsent() *Node         { return &Node{Kind: kAbsent} }
+func nNil() *Node            { return &Node{Kind: kNil} }
+func nInt(i int64) *Node     { return &Node{Kind: kInt, I: i} }
+func nBool(b bool) *Node     { return &Node{Kind: kBool, B: b} }
+func nUint(u uint64) *Node   { return &Node{Kind: kUint, U: u} }
+func nStr(s string) *Node    { return &Node{Kind: kStr, S: s} }
+func nList(l ...*Node) *Node { return &Node{Kind: kCfg, List: l} }
+func nDict() *Node           { return &Node{Kind: kCfg, Dict: map[string]*Node{}} }
 
 func (n *Node) set(k string, v *Node) *Node {
 	if n.Dict == nil {
